@@ -588,14 +588,62 @@ func ruleClientValidatorsRemoved(c *Ctx, rule string) {
 			}
 			return true
 		}
-		// a Set that is itself conditional does not count on the paths that skip it: MustPass handles that
-		res := c.An.MustPass(pr, returnsClone, isK)
-		if res.Targets == 0 {
-			c.Undecided(rule, "client-validators-removed", desc, c.P.ShortName(fn)+": no return of a clone")
+		// every path from the creation of a clone to a return passes the delete (or an unconditional set) of the field
+		clones := 0
+		missing := ""
+		instrsOf(fn, func(in ssa.Instruction) {
+			call, ok := in.(*ssa.Call)
+			if !ok || !ptrTo(call.Type(), "net/http", "Request") {
+				return
+			}
+			if len(c.P.RepoCallees(call)) == 0 && !callIsMethod(&call.Call, "net/http", "Request", "Clone") && !callIsMethod(&call.Call, "net/http", "Request", "WithContext") {
+				return
+			}
+			clones++
+			type pos struct {
+				b *ssa.BasicBlock
+				i int
+			}
+			seen := map[*ssa.BasicBlock]bool{}
+			start := 0
+			for i, x := range in.Block().Instrs {
+				if x == in {
+					start = i + 1
+				}
+			}
+			work := []pos{{in.Block(), start}}
+			for len(work) > 0 && missing == "" {
+				p := work[len(work)-1]
+				work = work[:len(work)-1]
+				killed := false
+				for _, x := range p.b.Instrs[p.i:] {
+					if isK(x) {
+						killed = true
+						break
+					}
+					if r, ok := x.(*ssa.Return); ok {
+						missing = c.P.InstrPos(r)
+						break
+					}
+				}
+				if killed || missing != "" {
+					continue
+				}
+				for _, sc := range p.b.Succs {
+					if !seen[sc] {
+						seen[sc] = true
+						work = append(work, pos{sc, 0})
+					}
+				}
+			}
+		})
+		_ = pr
+		if clones == 0 {
+			c.Undecided(rule, "client-validators-removed", desc, c.P.ShortName(fn)+": no clone of the request is made")
 			return
 		}
-		if !res.OK {
-			fails = append(fails, fmt.Sprintf("%s: a clone is returned without %s having been deleted or set", c.P.InstrPos(res.Missing[0]), field))
+		if missing != "" {
+			fails = append(fails, fmt.Sprintf("%s: reached from the creation of a clone without %s having been deleted or set", missing, field))
 		}
 	}
 	if len(fails) > 0 {
@@ -751,19 +799,30 @@ func ruleExplicitExpiryByPresence(c *Ctx, rule string) {
 	}
 	ff := c.A.F("freshness")
 	desc := "with a max-age directive present (usable or not) neither the heuristic nor Expires gives the lifetime"
-	pr := c.An.Prune(ff, AssumeKeys(map[string]bool{"rs.max-age": true}))
 	var live []string
 	total := 0
-	instrsOf(ff, func(in ssa.Instruction) {
-		if c.An.CallsRole(in, "heuristic") {
-			total++
+	// the decision may sit in a helper below the freshness function (the lifetime computation extracted)
+	for _, g := range c.reachableFrom(ff) {
+		if c.A.IsRoleFunc(g, "heuristic") {
+			continue
 		}
-	})
-	pr.LiveInstrs(func(in ssa.Instruction) {
-		if c.An.CallsRole(in, "heuristic") {
-			live = append(live, c.P.InstrPos(in))
+		has := 0
+		instrsOf(g, func(in ssa.Instruction) {
+			if c.An.CallsRole(in, "heuristic") {
+				has++
+			}
+		})
+		if has == 0 {
+			continue
 		}
-	})
+		total += has
+		pr := c.An.Prune(g, AssumeKeys(map[string]bool{"rs.max-age": true}))
+		pr.LiveInstrs(func(in ssa.Instruction) {
+			if c.An.CallsRole(in, "heuristic") {
+				live = append(live, c.P.InstrPos(in))
+			}
+		})
+	}
 	if total == 0 {
 		c.Undecided(rule, "explicit-expiry-by-presence", desc, c.P.ShortName(ff)+": no call of the heuristic")
 		return
@@ -1095,4 +1154,176 @@ func ruleBackgroundCancelCleared(c *Ctx) {
 		return
 	}
 	c.Fail("C20.3", "cancel-channel-cleared", desc, c.P.ShortName(swr)+": the clone given to the goroutine keeps Request.Cancel; http.Client closes that channel when its Timeout elapses (a caller may close it as soon as it has its stale answer), which aborts the background request long before the stale-while-revalidate timeout")
+}
+
+// ---------------------------------------------------------------------------------------------------------------------
+// an operation that timed out publishes nothing (D74)
+
+// ruleAbandonedNotPublished (C15.4 / C14.11): Set and Delete of the file-system backend return on a timeout while their
+// goroutine goes on. The step that makes the effect visible (rename into place, removal) must then not happen any more:
+// after `Set(k,A)` timed out and `Set(k,B)` succeeded, A's rename would bring back a value whose operation had already
+// failed - no linearisable order explains the following Get. Necessary condition decided here, for every method that
+// spawns a goroutine and returns from a `select` on a context's Done channel: (a) the Done branch does something besides
+// returning (it tells the writer), and (b) every rename/remove reachable from the goroutine is executed under a
+// condition that reads shared state (a field, an atomic, the context) - directly, or at the call of the function
+// literal that contains it.
+func ruleAbandonedNotPublished(c *Ctx, rule string) {
+	fp := c.P.Pkg("store/fscache")
+	if fp == nil {
+		return
+	}
+	desc := "an operation that reported its timeout cannot make its effect visible afterwards"
+	isPublish := func(cc *ssa.CallCommon) bool {
+		return callIsMethod(cc, "os", "Root", "Rename") || callIsMethod(cc, "os", "Root", "Remove") || callIsMethod(cc, "os", "Root", "RemoveAll") ||
+			callIsPkgFunc(cc, "os", "Rename") || callIsPkgFunc(cc, "os", "Remove")
+	}
+	readsShared := func(v ssa.Value) bool {
+		hit := false
+		c.P.TraceBack(v, TraceOpts{ThroughOps: true, NoParams: true}, func(x ssa.Value, _ []int) bool {
+			switch y := x.(type) {
+			case *ssa.UnOp:
+				if y.Op == token.MUL {
+					// a flag or a generation number kept in a structure
+					if _, ok := y.X.(*ssa.FieldAddr); ok {
+						if b, ok := y.Type().Underlying().(*types.Basic); ok && b.Info()&(types.IsBoolean|types.IsInteger) != 0 {
+							hit = true
+							return false
+						}
+					}
+				}
+			case *ssa.Call:
+				if sc := y.Call.StaticCallee(); sc != nil {
+					n := sc.String()
+					if strings.Contains(n, "sync/atomic") || strings.HasSuffix(n, ".Err") || strings.HasSuffix(n, ".Load") {
+						hit = true
+						return false
+					}
+				}
+				if y.Call.IsInvoke() && (y.Call.Method.Name() == "Err" || y.Call.Method.Name() == "Done") {
+					hit = true
+					return false
+				}
+			}
+			return true
+		})
+		return hit
+	}
+	n := 0
+	var bad []string
+	for _, fn := range c.P.RepoFuncs {
+		if fn.Pkg != fp || fn.Parent() != nil || isTestOnly(c, fn) {
+			continue
+		}
+		var spawn *ssa.Go
+		var sel *ssa.Select
+		instrsOf(fn, func(in ssa.Instruction) {
+			if g, ok := in.(*ssa.Go); ok {
+				spawn = g
+			}
+			if s, ok := in.(*ssa.Select); ok {
+				sel = s
+			}
+		})
+		if spawn == nil || sel == nil {
+			continue
+		}
+		// publishing calls reachable from the goroutine
+		type site struct {
+			in ssa.Instruction
+			fn *ssa.Function
+		}
+		var sites []site
+		for _, root := range c.P.Callees(spawn) {
+			for _, g := range c.reachableFrom(root) {
+				instrsOf(g, func(in ssa.Instruction) {
+					if cc := callOf(in); cc != nil && isPublish(cc) {
+						// the removal of the operation's own temporary file is no publication
+						if (callIsMethod(cc, "os", "Root", "Remove") || callIsPkgFunc(cc, "os", "Remove")) && !isFinalName(c, cc, g) {
+							return
+						}
+						sites = append(sites, site{in, g})
+					}
+				})
+			}
+		}
+		if len(sites) == 0 {
+			continue
+		}
+		n++
+		// (a) the Done branch: a block that returns the context's error after the select and contains a call or store
+		told := false
+		for _, b := range fn.Blocks {
+			r, ok := b.Instrs[len(b.Instrs)-1].(*ssa.Return)
+			if !ok || len(r.Results) == 0 {
+				continue
+			}
+			ev := c.An.RetVal(r, len(r.Results)-1)
+			call, ok := ev.(*ssa.Call)
+			if !ok || !(call.Call.IsInvoke() && call.Call.Method.Name() == "Err") {
+				continue
+			}
+			for _, in := range b.Instrs {
+				switch x := in.(type) {
+				case *ssa.Store:
+					if !localRoot(x.Addr) {
+						told = true
+					}
+				case *ssa.Call:
+					if x != call {
+						told = true
+					}
+				case *ssa.Send:
+					told = true
+				}
+			}
+		}
+		// (b) every publishing call is conditional on shared state
+		for _, s := range sites {
+			gated := false
+			check := func(b *ssa.BasicBlock) {
+				for _, dc := range controlConds(b) {
+					if readsShared(dc.cond) {
+						gated = true
+					}
+				}
+			}
+			check(s.in.Block())
+			// the function literal that contains the call is invoked through a parameter somewhere: look at that call
+			f := s.fn
+			for depth := 0; depth < 3 && !gated && f != nil; depth++ {
+				for _, cs := range c.P.Callers(f) {
+					check(cs.Instr.Block())
+				}
+				f = f.Parent()
+			}
+			if !gated {
+				bad = append(bad, c.P.ShortName(fn)+": "+c.P.InstrPos(s.in)+" is executed whatever happened to the operation meanwhile")
+			}
+		}
+		if !told {
+			bad = append(bad, c.P.ShortName(fn)+": the timeout branch only returns; the writer cannot know that the operation was given up")
+		}
+	}
+	switch {
+	case n == 0:
+		c.Pass(rule, "abandoned-not-published", desc, "no operation of store/fscache returns before its goroutine ends")
+	case len(bad) > 0:
+		sort.Strings(bad)
+		c.Fail(rule, "abandoned-not-published", desc, strings.Join(uniqStrings(bad), "; ")+". Witness: Set(k,A) times out on a slow disk, Set(k,B) succeeds, A's rename lands afterwards: Get(k) = A")
+	default:
+		c.Pass(rule, "abandoned-not-published", desc, fmt.Sprintf("%d operation(s) with a timeout, every rename/remove gated", n))
+	}
+}
+
+// isFinalName: the path argument of a remove call is the entry's file name (derived from the file namer), not a
+// temporary name built with a formatting call.
+func isFinalName(c *Ctx, cc *ssa.CallCommon, fn *ssa.Function) bool {
+	_, args := recvAndArgs(cc)
+	if len(args) == 0 {
+		return true
+	}
+	tmp := c.An.dependsOnCallFull(args[0], func(x *ssa.Call) bool {
+		return callIsPkgFunc(&x.Call, "fmt", "Sprintf") || callIsPkgFunc(&x.Call, "os", "CreateTemp")
+	})
+	return !tmp
 }
